@@ -11,3 +11,5 @@ import Ypv.Props.C08
 #print axioms Ypv.C08.pop_of_rendered
 #print axioms Ypv.C08.append_text
 #print axioms Ypv.C08.append_pop
+#print axioms Ypv.C08.pop_respelled
+#print axioms Ypv.C08.pop_respelled_reparses
